@@ -153,7 +153,7 @@ def run_property(prop, tier, configs=None):
                        "where": v["loc"], "detail": v["detail"], "config": v.get("config"),
                        "tier": tier}, fh, indent=1)
         print("VIOLATION property=%s replay=%s" % (prop, p))
-        print("  rule %s at %s: %s" % (v["rule"], v["loc"], v["desc"]))
+        print("  rule %s key `%s` at %s — obligation NOT discharged: %s" % (v["rule"], v["key"], v["loc"], v["desc"]))
 
     distinct_keys = {o["key"] for o in all_obs}
     nontrivial = {o["key"] for o in all_obs if o["nontrivial"]}
